@@ -134,7 +134,7 @@ def strip(rec):
 def check_c15(tier, replay):
     v = C.Verdict("C15", tier)
     work = C.fresh_dir(os.path.join(C.OUT, "work", "C15"))
-    fams = ["F1", "F3", "F4", "F6", "F7", "F8", "F8m", "F10", "F13", "F14", "F14L"] if tier == "quick" else SC.ALLF + ["F14", "F14L", "FC1", "FC2"]
+    fams = ["F1", "F3", "F4", "F6", "F7", "F8", "F8m", "F10", "F13", "F14", "F14L"] if tier == "quick" else ["F1", "F2x", "F3", "F4", "F4b", "F6", "F7", "F8", "F8m", "F10", "F11", "F13", "F14", "F14L", "FC2"]
     if replay:
         rp = json.load(open(replay))["replay"]
         cases = os.path.join(work, "cases.ndjson")
